@@ -100,21 +100,20 @@ Theorem C01_dual_proof_no_fork :
 Proof. exact dual_proof_no_fork. Qed.
 Print Assumptions C01_dual_proof_no_fork.
 
-(* The same for VerifyDualProofV2 when sourceTxID <> targetTxID (for equal ids the verifier
-   compares nothing: C01_dual_proof_v2_same_id_refuted). *)
-Theorem C01_dual_proof_v2_sound_wrt_history_partial :
+(* The same for VerifyDualProofV2 (for sourceTxID = targetTxID the verifier demands sourceAlh =
+   targetAlh since /repo commit dd8ca50). *)
+Theorem C01_dual_proof_v2_sound_wrt_history :
   forall (H : bytes -> bytes), (forall x, length (H x) = 32%nat) ->
   forall (hs : list txhdr) (p : dual_proof_v2) (src tgt : N) (salh : bytes) (sh th tg : txhdr),
     wf_hist H hs ->
     tx_at hs tgt = Some tg ->
     d2_src p = Some sh -> d2_tgt p = Some th -> hdr_valid sh = true -> hdr_valid th = true ->
     len32 (d2_incl p) ->
-    src <> tgt ->
     verify_dual_proof_v2 H (Some p) src tgt salh (alh_v H tg) = Ok true ->
     (exists g, tx_at hs src = Some g /\ hashed_fields sh = hashed_fields g /\ salh = alh_v H g)
     \/ Collision H.
 Proof. exact dual_proof_v2_sound_wrt_history. Qed.
-Print Assumptions C01_dual_proof_v2_sound_wrt_history_partial.
+Print Assumptions C01_dual_proof_v2_sound_wrt_history.
 
 (* With the header pinned, an accepted entry inclusion proof against its Eh pins the entry (key,
    metadata bytes, value hash) as one of the entries of that transaction. *)
@@ -243,7 +242,7 @@ Theorem C01_dual_proof_same_target_unique :
 Proof. exact dual_proof_same_target_unique. Qed.
 Print Assumptions C01_dual_proof_same_target_unique.
 
-(* The same for VerifyDualProofV2 (sourceTxID <> targetTxID). The FULL session statement (pairs
+(* The same for VerifyDualProofV2. The FULL session statement (pairs
    accepted under DIFFERENT states of one session agree) additionally needs the transport of
    inclusion facts across a state advance, i.e. a consistency verifier that is exact in the old
    size (fact (T) of Proofs/Session.v; C08 known finding) — and is refuted for VerifyDualProof on
@@ -252,7 +251,7 @@ Theorem C01_dual_proof_v2_same_target_unique :
   forall (H : bytes -> bytes), (forall x, length (H x) = 32%nat) ->
   forall (p1 p2 : dual_proof_v2) (src tgt : N) (a b talh : bytes) (t1 t2 : txhdr),
     d2_tgt p1 = Some t1 -> d2_tgt p2 = Some t2 -> hdr_valid t1 = true -> hdr_valid t2 = true ->
-    len32 (d2_incl p1) -> len32 (d2_incl p2) -> src <> tgt ->
+    len32 (d2_incl p1) -> len32 (d2_incl p2) ->
     verify_dual_proof_v2 H (Some p1) src tgt a talh = Ok true ->
     verify_dual_proof_v2 H (Some p2) src tgt b talh = Ok true ->
     a = b \/ Collision H.
@@ -266,11 +265,11 @@ Print Assumptions C01_dual_proof_v2_same_target_unique.
                                            for VerifyDualProof on headers whose binary linking lags
                                            (source.BlTxID < target.BlTxID < sourceTxID): a forged
                                            leaf enters the tree unrelated to the source's chain;
-     dual_proof_v2_same_id_refuted         VerifyDualProofV2 with sourceTxID = targetTxID accepts
-                                           two different Alh values;
    and, fixed in /repo: (d34d669) session_family_a_before_repair_refuted (the verifier before the
    repair accepted a forged session on ordinary headers) with family_a_rejected (it no longer does);
-   (c59ab5b) family_d_rejected (over-long inclusion proofs, VerifyDualProof and VerifyDualProofV2). *)
+   (c59ab5b) family_d_rejected (over-long inclusion proofs, VerifyDualProof and VerifyDualProofV2);
+   (dd8ca50) dual_proof_v2_same_id_refuted (about the verifier before the repair) with
+   dual_proof_v2_same_id_rejected. *)
 
 (* Alh does not commit to NEntries beyond the uint16 cast of innerHash (header version 0). *)
 Theorem C01_alh_nentries_truncation_refuted :
